@@ -72,6 +72,19 @@ def run_one(s):
     r = watched(lambda: len(d2.sample_random_uniform(d=2.0, params=U.mk_params(names, rows[:1]))), 6)
     tr["usercount"] = r[1] if r[0] == "ok" else -1
     tr["usercount_exc"] = "" if r[0] == "ok" else (r[1] if len(r) > 1 else "hang")
+    # the same with the volume given as a TENSOR, and a history: density sampling twice, the volume asked after each
+    d4 = U.build(e)
+
+    def tensor_volume_history():
+        d4.set_volume(torch.tensor(5.0))
+        out = []
+        for dd_ in (2.0, 3.0):
+            n_ = len(d4.sample_random_uniform(d=dd_, params=U.mk_params(names, rows[:1])))
+            out.append([n_] + fxv(d4.volume(U.mk_params(names, rows[:1])), VS))
+        return out
+    r = watched(tensor_volume_history, 8)
+    tr["uservol_hist"] = r[1] if r[0] == "ok" else []
+    tr["uservol_hist_exc"] = "" if r[0] == "ok" else (r[1] if len(r) > 1 else "hang")
     # a factor of a product gets a user-set volume AFTER the product's volume was asked: the product follows its factors
     tr["factorvol"], tr["factorvol_exc"] = [], "none"
     if e["k"] == "prod" and not (U.free_vars(e["l"]) & set(U.space_vars(e["r"]))):
